@@ -210,8 +210,10 @@ def finish(prop, tier, results, t0, bounds, outside, assumptions, stubs, level="
     )
     if extra:
         ev["coverage"].update(extra)
-    os.makedirs(os.path.join(ROOT, "evidence"), exist_ok=True)
-    with open(os.path.join(ROOT, "evidence", f"{prop}.json"), "w") as f:
+    # VERIF_EVIDENCE_DIR: development runs against a scratch tree (tools/mutwt.sh) must not overwrite the evidence of /repo
+    evdir = os.environ.get("VERIF_EVIDENCE_DIR") or os.path.join(ROOT, "evidence")
+    os.makedirs(evdir, exist_ok=True)
+    with open(os.path.join(evdir, f"{prop}.json"), "w") as f:
         json.dump(ev, f, indent=1, default=str)
     n_held = sum(1 for r in results if r["status"] == "held")
     print(f"{prop} {tier}: jobs={len(results)} held={n_held} known={len(knownseen)} violations={len(viol)} "
